@@ -750,6 +750,8 @@ class Eval:
                 return self.apply(f, args)
             if n == 'deque' and len(args) == 1:
                 return args[0]
+            if n == 'len' and len(args) == 1:
+                return ('sym',)     # a number computed from branch state: not a node world, not a fresh one
             if n in ('tuple', 'list') and len(args) <= 1:
                 return Seq(self.iterate(args[0])) if args else Seq(())
             modfn = self.module_function(n)
